@@ -157,6 +157,12 @@ fn alpha(cfg: &Cfg) -> Vec<Op> {
         c(DecSet(vec![1049])),
         c(DecRst(vec![1049])),
         c(Ed(Some(2))),
+        // functions that act on the SCREEN: what has scrolled off is none of their business
+        c(Ed(Some(3))),
+        c(Ed(None)),
+        c(Ed(Some(1))),
+        c(Decaln),
+        c(Decstr),
         // excursion in one call
         c(Seq(vec![DecSet(vec![1049]), Text("alt".into()), lfs(4), DecRst(vec![1049])])),
         c(Seq(vec![Text("ab".into()), lfs(2), DecSet(vec![47])])),
